@@ -37,6 +37,15 @@ def gen_cases(ctx, n_programs, n_inputs):
         for v in vs:
             case.jobs.append(P.Job('%s_i%d_%s' % (case.name, ii, v.name), case, v, rows))
     cases.append(case)
+    rng = random.Random(ctx.rng.getrandbits(48))
+    name, prog, input_rels, mk = corpus.agg_repeated(rng)
+    vs = [E.Variant('ser', prog, 'ascent'), E.Variant('par', prog, 'ascent_par'), E.Variant('run', prog, 'ascent_run')]
+    case = P.Case('k_' + name, prog, vs, meta={'dom': 6, 'aggs': ['sum', 'max', 'min', 'count']})
+    for ii in range(max(4, n_inputs // 3)):
+        rows = mk(rng)
+        for v in vs:
+            case.jobs.append(P.Job('%s_i%d_%s' % (case.name, ii, v.name), case, v, rows))
+    cases.append(case)
     while len(cases) < n_programs:
         rng = random.Random(ctx.rng.getrandbits(48))
         if len(cases) % 4 == 3:
